@@ -55,7 +55,7 @@ def run(ctx):
     ctx.prove("C29")
     engine.install(need_parser=True)
     q = ctx.tier == "quick"
-    n = 150 if q else 4000
+    n = 100 if q else 4000
     cases = []
     tries = 0
     while len(cases) < n and tries < n * 30:
